@@ -1,5 +1,8 @@
 """C05 - concurrent transactions commit exactly their own writes; no lost increments.
 
+Body commands: set, incr, get, delete, and the other read-modify-writes of the transaction backend: expire (buffers the backend's
+current value and writes it back at commit) and set(exist=True|False) (decides on the key's presence).
+
 proof: lean/CashewsVerif/Props/C05.lean (invariants of the TxSched transition system over all schedules).
 tie:   2-4 real tasks run on one Cache('mem://') whose Memory is gated by a deterministic scheduler
        (harness/txsched.py): every outermost backend command is one schedule step.  The recorded schedule
@@ -27,7 +30,9 @@ TRUSTED = [
     "asyncio assumptions A1 (no preemption between suspension points) and A3 (ContextVar is per task) - exercised on the real loop, not proved",
     "harness: gate scheduler and 1/40 s timer grid (harness/txsched.py), virtual clock (harness/vtime.py); the gathered unlocks of one "
     "transaction are released in lock-key order",
-    "values are integers, no TTLs inside transactions (C03/C04 cover the overlay's value/TTL semantics)",
+    "values are integers; TTLs are not modelled (C03/C04 cover the overlay's value/TTL semantics): `expire` is given TTLs of 1-2 h, "
+    "far beyond any run, and is compared as what it does to values (buffer the backend's current value under the key's lock); the "
+    "set_many commands of one commit (one per TTL group, issued back to back) are scheduled and compared as one step",
 ]
 
 
@@ -78,6 +83,8 @@ def canon_outcome(out) -> str:
 
 
 def op_word(op) -> str:
+    if op[0] == "expire":
+        return f"expire:{op[1]}"          # the model has no TTLs
     return ":".join(str(x) for x in op)
 
 
@@ -100,10 +107,20 @@ def attempts(timeout_u: int) -> int:
     return (timeout_u + 3) // 4
 
 
-def spec_body(ops, reads):
-    """sequential meaning of a transaction body, given what its backend reads returned"""
+def spec_body(ops, reads, retimed=None, conditional=None, read_kinds=None):
+    """sequential meaning of a transaction body, given what its backend reads returned
+    (`retimed` / `conditional`, statistics only: collect the keys whose buffered value came from the backend read of an
+    `expire` / that a conditional `set` wrote; `read_kinds`: for each backend read consumed, (command, key))"""
     ov, dl, res = {}, set(), []
-    it = iter(reads)
+    src = iter(reads)
+
+    class _It:
+        def __next__(self):
+            v = next(src)
+            if read_kinds is not None:
+                read_kinds.append((op[0], op[1]))
+            return v
+    it = _It()
     try:
         for op in ops:
             if op[0] == "set":
@@ -126,6 +143,28 @@ def spec_body(ops, reads):
             elif op[0] == "del":
                 ov.pop(op[1], None)
                 dl.add(op[1])
+            elif op[0] == "setx":
+                # set only if present (op[3] = 1) / only if absent: presence is the buffer's, else the deletion mark's, else the backend's
+                k = op[1]
+                present = True if k in ov else False if k in dl else next(it) is not None
+                if present == bool(op[3]):
+                    ov[k] = op[2]
+                    dl.discard(k)
+                    res.append(1)
+                    if conditional is not None:
+                        conditional.add(k)
+                else:
+                    res.append(0)
+            elif op[0] == "expire":
+                # re-time the key: nothing to do for a deleted or already buffered key; else the backend's current value
+                # (if there is one) is buffered, to be written back with the new TTL
+                k = op[1]
+                if k not in dl and k not in ov:
+                    cur = next(it)
+                    if cur is not None:
+                        ov[k] = cur
+                        if retimed is not None:
+                            retimed.add(k)
             elif op[0] == "raise":
                 return ("raise", ov, dl, res)
     except StopIteration:
@@ -153,6 +192,7 @@ def oracle(case, res):
         before = data
     outs = {i: canon_outcome(res["outcomes"].get(i, ("unfinished",))) for i in range(len(progs))}
     within = {}
+    rmw_reads = {}
     for tid, p in enumerate(progs):
         st = steps[tid]
         flat = [op for op in p["ops"] if op[0] not in ("nin", "nout", "sleep", "gc")]
@@ -165,7 +205,7 @@ def oracle(case, res):
             for op in flat:
                 if op[0] == "raise":
                     break
-                name = {"set": "set", "incr": "incr", "get": "get", "del": "delete"}[op[0]]
+                name = {"set": "set", "incr": "incr", "get": "get", "del": "delete", "expire": "expire", "setx": "set"}[op[0]]
                 exp_labels.append(f"{name}:{op[1]}")
                 if j < len(st):
                     lab, b, a, _, _, _ = st[j]
@@ -178,6 +218,13 @@ def oracle(case, res):
                         exp_res.append(want[k])
                     elif op[0] == "get":
                         exp_res.append(b.get(k))
+                    elif op[0] == "expire":
+                        pass                      # no value changes
+                    elif op[0] == "setx":
+                        hit = (k in b) == bool(op[3])
+                        if hit:
+                            want[k] = op[2]
+                        exp_res.append(1 if hit else 0)
                     else:
                         want.pop(k, None)
                     if a != want:
@@ -191,7 +238,7 @@ def oracle(case, res):
                                              f"are not the direct ones {exp_labels} / {exp_out}"))
             continue
         # ---- a transactional task
-        reads = [b.get(int(lab.split(":")[1])) for lab, b, _, _, _, _ in st if lab.startswith("get:")]
+        reads = [b.get(int(lab.split(":")[1])) for lab, b, _, _, _, _ in st if lab.startswith(("get:", "exists:"))]
         labels = [s[0] for s in st]
         # LockedError is the body's own outcome (raised by the cache command inside it) exactly when the lock wait ran out:
         # the task's last commands before its unlocks are attempts(timeout) failed set_lock on one lock
@@ -206,7 +253,16 @@ def oracle(case, res):
                 break
             tail += 1
         locked_out = tail > 0 and tail == attempts(p["timeout"])
-        kind, ov, dl, rs = spec_body(flat, reads)
+        retimed, conditional, read_kinds = set(), set(), []
+        kind, ov, dl, rs = spec_body(flat, reads, retimed, conditional, read_kinds)
+        rmw_reads[tid] = read_kinds
+        if any(lab.startswith("exists:") for lab in labels):
+            stats["conditional_set_reads_backend"] = 1
+        if retimed:
+            stats["expire_buffers_backend_value"] = 1
+            fails0 = sum(1 for a, b in zip(labels, labels[1:]) if a.startswith("set_lock:") and b == a)
+            if fails0 and p["mode"] != "fast":
+                stats["expire_in_tx_with_lock_wait"] = 1
         if locked_out:
             kind = "locked"
             stats["locked_error"] = 1
@@ -249,23 +305,45 @@ def oracle(case, res):
         stats["beyond_timeout"] = 1
     # ---- no lost increments
     for k in range(NKEYS):
-        users = [(i, op) for i, p in enumerate(progs) for op in p["ops"] if op[0] in ("set", "incr", "del") and op[1] == k]
-        if not users or any(op[0] != "incr" or progs[i]["kind"] != "tx" for i, op in users):
+        # a counter: transactions only increment it or re-time it (`expire` contributes 0), nobody else writes it
+        writers = [(i, op) for i, p in enumerate(progs) for op in p["ops"] if op[0] in ("set", "setx", "incr", "del") and op[1] == k]
+        retimers = [(i, op) for i, p in enumerate(progs) for op in p["ops"]
+                    if op[0] == "expire" and op[1] == k and p["kind"] == "tx"]
+        users = writers + retimers
+        if not users or any(op[0] != "incr" or progs[i]["kind"] != "tx" for i, op in writers):
             continue
-        total = sum(op[2] for i, op in users if outs[i].startswith("ret:"))
+        total = sum(op[2] for i, op in writers if outs[i].startswith("ret:"))
         init = int(case["init"].get(k, case["init"].get(str(k), 0)) or 0)
         final = res["final"].get(k)
-        committed = any(outs[i].startswith("ret:") for i, _ in users)
+        committed = any(outs[i].startswith("ret:") for i, _ in writers)
         present = k in case["init"] or str(k) in case["init"]
         lost = final != ((init + total) if (present or committed) else None)
         if len({i for i, _ in users}) >= 2:
             stats["shared_counter"] = 1
+        if retimers and writers and len({i for i, _ in users}) >= 2:
+            stats["counter_incremented_and_retimed"] = 1
         if lost and modes == {"fast"}:
             stats["fast_lost_update"] = 1
         if lost and len(modes) == 1 and modes <= {"locked", "serializable"} and not all_within:
             stats["lost_update_beyond_timeout"] = 1
         if len(modes) == 1 and modes <= {"locked", "serializable"} and all_within and lost:
             bad.append(("no_lost_increments", f"counter k{k}: init {init} + committed increments {total} != final {final}"))
+    # ---- a value that is read from the backend in order to be buffered (the seed of an `incr`, the value an `expire` writes
+    #      back, the presence a conditional `set` decides on) is read under the key's lock: what is buffered is the store's
+    #      current value (theorem buffered_counter_is_current)
+    if len(modes) == 1 and modes <= {"locked", "serializable"} and all_within:
+        for tid in txs:
+            rsteps = [s for s in steps[tid] if s[0].startswith(("get:", "exists:"))]
+            for (cmd, k), (lab, _, _, locks, _, g) in zip(rmw_reads.get(tid, []), rsteps):
+                if cmd == "get":
+                    continue
+                full = ":serializable:lock" if modes == {"serializable"} else f":tx_lock:k{k}"
+                if locks.get(full) != tid:
+                    bad.append(("buffered_value_is_current", f"task {tid} read k{k} from the backend ({lab}, step {g}) for its `{cmd}` - a value it "
+                                                      f"buffers and writes back at commit - without holding the key's lock ({lock_name(full)}): "
+                                                      f"what it buffers need not be the store's current value when it commits"))
+                else:
+                    stats["rmw_read_under_lock"] = 1
     # ---- write phases (lock held) never overlap: globally in serializable mode, per key in locked mode
     if len(modes) == 1 and modes <= {"locked", "serializable"} and all_within:
         spans = {}
@@ -326,6 +404,8 @@ def oracle(case, res):
             if a < b and (progs[a]["mode"], progs[a]["timeout"]) == (progs[b]["mode"], progs[b]["timeout"]) and steps[a] and steps[b]:
                 if steps[a][0][5] < steps[b][-1][5] and steps[b][0][5] < steps[a][-1][5]:
                     stats["one_decorated_function_overlapping_calls"] = 1
+    if res.get("merged_groups"):
+        stats["commit_with_several_ttl_groups"] = 1
     return bad, stats
 
 
@@ -510,6 +590,21 @@ def exhaustive_families():
                      {0: 5}, [tx(mode, [["set", 1, 1], ["incr", 0, 2]], "dec", 40),
                               tx(mode, [["nin", "dec"], ["incr", 0, 1], ["nout"], ["get", 1]], "dec", 40),
                               plain([["set", 2, 9], ["get", 0]])], mode == "fast"))
+    for mode in ("fast", "locked", "serializable"):
+        # `expire` inside a transaction is a read-modify-write (the backend's value is buffered and written back)
+        fams.append((f"{mode}: a call incrementing a counter against a call that re-times (expire) and then increments it",
+                     {0: 1}, [tx(mode, [["incr", 0, 1]], "dec", 40), tx(mode, [["expire", 0], ["incr", 0, 2]], "dec", 40)], True))
+        fams.append((f"{mode}: re-timing only (present, absent and just-deleted key) against an incrementing call",
+                     {0: 1, 2: 5}, [tx(mode, [["incr", 0, 1]], "dec", 40),
+                                    tx(mode, [["expire", 0], ["expire", 1], ["del", 2], ["expire", 2]], "ctx", 40)], True))
+        fams.append((f"{mode}: re-timing with two TTLs, of a key written in the block too, against a plain re-timer/reader",
+                     {0: 1}, [tx(mode, [["expire", 0, 7200], ["set", 1, 4], ["expire", 1], ["incr", 0, 1]], "ctx", 40),
+                              plain([["expire", 0], ["incr", 0, 10], ["get", 1]])], True))
+    for mode in ("fast", "locked", "serializable"):
+        # a conditional `set` is a read-modify-write on presence
+        fams.append((f"{mode}: a call creating and a call deleting a key against conditional sets (only-if-absent, only-if-present) of it",
+                     {2: 1}, [tx(mode, [["set", 1, 5], ["del", 2]], "ctx", 40),
+                              tx(mode, [["setx", 1, 7, 0], ["setx", 1, 8, 1], ["setx", 2, 9, 1]], "dec", 40)], True))
     fams.append(("locked: opposite lock order with a short timeout (deadlock broken by LockedError)",
                  {}, [tx("locked", [["incr", 0, 1], ["incr", 1, 1]], "dec", 20), tx("locked", [["incr", 1, 1], ["incr", 0, 1]], "dec", 20)], True))
     fams.append(("serializable: holder sleeps past a short timeout (lease expires)",
@@ -530,15 +625,19 @@ def gen_ops(rng, in_tx: bool, nmax: int):
     for _ in range(rng.randint(1, nmax)):
         r = rng.random()
         k = rng.choice([0, 0, 0, 1, 1, 2, 3][: 7])
-        if r < 0.38:
+        if r < 0.34:
             ops.append(["incr", k, rng.choice([1, 1, 2, -1, 3])])
-        elif r < 0.55:
+        elif r < 0.49:
             ops.append(["set", k, rng.randint(-2, 9)])
-        elif r < 0.70:
+        elif r < 0.62:
             ops.append(["get", k])
-        elif r < 0.80:
+        elif r < 0.71:
             ops.append(["del", k])
-        elif r < 0.87:
+        elif r < 0.77:
+            ops.append(["expire", k] if rng.random() < 0.7 else ["expire", k, 7200])
+        elif r < 0.82:
+            ops.append(["setx", k, rng.randint(-2, 9), rng.randint(0, 1)])
+        elif r < 0.88:
             ops.append(["sleep", rng.choice([1, 1, 2, 4, 8])])
         elif r < 0.90:
             ops.append(["raise"])
@@ -565,18 +664,19 @@ def gen_case(rng, ntasks_max: int, style: int):
         to = to0 if uniform or rng.random() < 0.5 else rng.choice([20, 40, 400])
         form = rng.choice(["dec", "dec", "ctx"])
         if style == 1:
-            # counter workload: only increments (and reads / sleeps) so that the no-lost-increments statement applies
+            # counter workload: only increments and re-timings (and reads / sleeps) so that the no-lost-increments statement applies
             ops = []
             for _ in range(rng.randint(1, 4)):
                 r = rng.random()
-                ops.append(["incr", rng.choice([0, 0, 1]), rng.choice([1, 2, 1, -1])] if r < 0.7 else
-                           ["get", rng.choice([0, 1])] if r < 0.85 else ["sleep", rng.choice([1, 2])] if r < 0.95 else ["raise"])
+                ops.append(["incr", rng.choice([0, 0, 1]), rng.choice([1, 2, 1, -1])] if r < 0.55 else
+                           ["expire", rng.choice([0, 0, 1])] if r < 0.73 else
+                           ["get", rng.choice([0, 1])] if r < 0.86 else ["sleep", rng.choice([1, 2])] if r < 0.95 else ["raise"])
             if rng.random() < 0.3:
                 ops = [["nin", rng.choice(["dec", "ctx"])]] + ops + [["nout"]]
         else:
             ops = gen_ops(rng, True, 6)
         programs.append(tx(mode, ops, form, to))
-    init = {k: rng.randint(0, 5) for k in range(NKEYS) if rng.random() < 0.4}
+    init = {k: rng.randint(0, 5) for k in range(NKEYS) if rng.random() < (0.4 if style != 1 else 0.6)}
     schedule = [rng.randint(0, 3) if rng.random() < 0.8 else 0 for _ in range(rng.randint(5, 80))]
     return {"init": init, "programs": programs, "schedule": schedule}
 
@@ -700,7 +800,10 @@ def run(chk: Check) -> int:
                 "reached at least one interesting state (failed set_lock = contention, lock handed over between transactions, LockedError, "
                 "a transaction outliving its timeout, overlapping calls of one decorated function, nested block, body raising while holding locks, "
                 "another task's command between a commit's delete_many and set_many, a plain task's command inside a transaction's window, "
-                "a lost update in fast mode, a counter shared by >= 2 transactions); distinct = distinct (init, programs, resolved choice sequence)",
+                "a lost update in fast mode, a counter shared by >= 2 transactions, an `expire` inside a transaction that buffered the backend's "
+                "value (= read-modify-write), such a transaction that had to wait for a lock, a counter incremented by one transaction and re-timed by "
+                "another, a commit with several TTL groups, a conditional set that consulted the backend, a read-modify-write read issued under the "
+                "key's lock); distinct = distinct (init, programs, resolved choice sequence)",
         "exhaustive": all(e["complete"] for e in exhaustive) and bool(exhaustive),
         "exhaustive_families": exhaustive,
         "samples": samples,
@@ -710,7 +813,9 @@ def run(chk: Check) -> int:
         "interesting_states_cases": interesting,
         "trusted_base": TRUSTED,
         "partial": "the model cannot exhibit: preemption inside a backend command or inside task-local code (asyncio A1), a ContextVar leaking "
-                   "between tasks (A3), cancellation, more than one transaction block per task, TTLs and non-integer values inside the block, "
+                   "between tasks (A3), cancellation, more than one transaction block per task, TTL values (expire is modelled as what it does to "
+                   "values; another task's command between the set_many commands of the TTL groups of one commit), non-integer values inside the block, "
+                   "the multi-key commands (set_many / delete_many / delete_match / get_many issued by a body), "
                    "a second backend/prefix, orders of the gathered unlocks other than by lock key, more than 4 tasks",
     })
     chk.assumptions.extend(TRUSTED)
